@@ -111,6 +111,8 @@ package engine
 //@ func (e *engine) eval()
 //@   requires e != nil && ewf(e)
 //@   opt nosafety
+// delta rules are made for the predicates of the layer being evaluated (its own declarations), not for the program's
+//@   guard call makeDeltaRules: arg0 == e.programInfo.Decls && arg1 == e.predToRules
 //@   guard return in loop 1: err != nil
 //@   guard return in loop 5: err != nil
 //@   loop 5 invariant deltaInStore(e)
@@ -320,3 +322,30 @@ package engine
 //@   opt nosafety
 //@   requires factstore.swf(store)
 //@   ensures err == nil ==> ranNaive(factstore.view(store))
+
+// ---- C14: the box operators look at every stored interval of the atom ------------------------------------------------
+// "Held throughout the window" is decided per stored (coalesced) interval against the whole window: an interval that
+// covers the window but ended before the evaluation time still counts. The candidates therefore come from a scan of
+// all facts of the atom, never from a point or range query; the diamond operators ask for the facts during the window.
+//@ func (te *TemporalEvaluator) evalBoxMinus(atom, opInterval, interval, subst)
+//@   requires te != nil && negatable(opInterval.Start) && negatable(opInterval.End)
+//@   opt nosafety
+//@   guard nocall GetFactsAt: false
+//@   guard nocall GetFactsDuring: false
+//@   guard call GetAllFacts: arg0 == atom
+//@ func (te *TemporalEvaluator) evalBoxPlus(atom, opInterval, interval, subst)
+//@   requires te != nil && negatable(opInterval.Start) && negatable(opInterval.End)
+//@   opt nosafety
+//@   guard nocall GetFactsAt: false
+//@   guard nocall GetFactsDuring: false
+//@   guard call GetAllFacts: arg0 == atom
+//@ func (te *TemporalEvaluator) evalDiamondMinus(atom, opInterval, interval, subst)
+//@   requires te != nil && negatable(opInterval.Start) && negatable(opInterval.End)
+//@   opt nosafety
+//@   guard nocall GetFactsAt: false
+//@   guard call GetFactsDuring: arg0 == atom
+//@ func (te *TemporalEvaluator) evalDiamondPlus(atom, opInterval, interval, subst)
+//@   requires te != nil && negatable(opInterval.Start) && negatable(opInterval.End)
+//@   opt nosafety
+//@   guard nocall GetFactsAt: false
+//@   guard call GetFactsDuring: arg0 == atom
